@@ -68,6 +68,18 @@ def run(rep):
     pre = ostm[:ostm.index(wl)]
     pce = cq.evaluate([s for s in pre if s.get("kind") != "IfStmt"])
     penv = pce.finals[-1][0] if pce.finals else {}
+    # no cell skips its walk: the statements before the walk loop neither `continue` nor leave with success
+    try:
+        fce = cq.evaluate(pre)
+        skips = [how for _e, _c, how in fce.finals if how in ("ContinueStmt", "BreakStmt")]
+        skips += ["return 0" for r_ in fce.returns if isinstance(r_[0], tuple) and cq.same_expr(r_[0], "0")]
+        if skips and cq.stores(fce, "accumulation"):
+            rep.undecided("R11.a", file, "c_accumulate", "no cell skips its walk", "a path leaves before the walk after storing into the accumulation itself", line=outer.get("_line"))
+        else:
+            rep.check(not skips, "R11.a", file, "c_accumulate", "no cell skips its walk (a skipped walk leaves its terminal cell without the no-data flag)",
+                      f"{len(skips)} path(s) leave the cell's iteration before the walk: {sorted(set(skips))}", line=outer.get("_line"))
+    except Undecided as ex:
+        rep.undecided("R11.a", file, "c_accumulate", "no cell skips its walk", str(ex), line=outer.get("_line"))
     wparts = loop_parts(wl)
     wlr = cq.loop_range(wl, pre) if wl.get("kind") == "ForStmt" else None
     # the step counter: the variable compared with max_accumulated_cells in the walk condition
